@@ -29,6 +29,7 @@ type specEnv struct {
 	names    map[string]*specBinding
 	pre      *State
 	cur      *State
+	post     *State // set inside old(...): the state that now(...) returns to
 	allocPre string
 	bound    []map[string]specVal
 	lets     map[string]*Expr
@@ -99,6 +100,9 @@ func (env *specEnv) tr(e *Expr) specVal {
 		return env.ident(e.Name)
 	case "old":
 		c := env.child()
+		if c.post == nil {
+			c.post = env.cur
+		}
 		c.cur = env.pre
 		return c.tr(e.Args[0])
 	case "un":
@@ -686,6 +690,14 @@ func (env *specEnv) call(e *Expr) specVal {
 		case "in64":
 			x := env.tr(args[0])
 			return ghost("(and (<= (- 9223372036854775808) "+x.T+") (<= "+x.T+" 9223372036854775807))", "Bool")
+		case "now":
+			// inside old(...): evaluate the argument in the current (post) state
+			c := env.child()
+			if env.post != nil {
+				c.cur = env.post
+				c.post = nil
+			}
+			return c.tr(args[0])
 		case "inner":
 			// the backing array of a slice in the current heap, as a ghost value
 			x := env.tr(args[0])
